@@ -13,6 +13,14 @@ Proof.
   - rewrite (IH i x y H E). reflexivity.
 Qed.
 
+Lemma first_idx_first {A} (f : A -> bool) (l : list A) : forall i x, nth_error l i = Some x -> f x = true ->
+  (forall j y, (j < i)%nat -> nth_error l j = Some y -> f y = false) -> first_idx f l = Some i.
+Proof.
+  induction l as [|z l IH]; intros [|i] x H Fx Hlt; cbn in *; try discriminate.
+  - inversion H; subst. rewrite Fx. reflexivity.
+  - rewrite (Hlt 0%nat z ltac:(lia) eq_refl). rewrite (IH i x H Fx); [reflexivity|]. intros j y Hj Hy. apply (Hlt (S j) y); [lia|exact Hy].
+Qed.
+
 Lemma some_inj {A} (x y : A) : Some x = Some y -> x = y.
 Proof. congruence. Qed.
 
@@ -220,6 +228,60 @@ Proof.
   destruct (reaches_path_gen s bang PAlt p 1 b1 Hok Hp Hne Hf ltac:(lia) H1) as (A & B & C & D & E & _). auto.
 Qed.
 
+(* :ew path (vi's window switch issues ew! / ew): when the buffer is beyond slot 1 the alternate is made current first
+   ("without changing #"), then the named buffer; the buffer reached is the same *)
+Lemma saved_nth0 s x0 : nth_error (bufs s) 0 = Some x0 ->
+  nth_error (saved Lo s) 0 = Some (upd_slot bump (upd_slot (fun b => set_view b (xv s)) x0)).
+Proof. intro H. unfold saved. destruct (bufs s) as [|y r]; cbn in *; [discriminate|]. inversion H; subst. reflexivity. Qed.
+
+Lemma reaches_ew_forced s bang a p i b : bang || xwa s = true -> pathexpand s a = Some p -> p <> [] ->
+  bufs_find s p = Some i -> (1 <= i)%nat -> nth_error (bufs s) i = Some (Some b) ->
+  let r := ec_edit Lo s bang true a in
+  snd r = true /\ snd (fst r) = [] /\ slot0 (fst (fst r)) = Some b /\ xv (fst (fst r)) = b_view b /\ fs (fst (fst r)) = fs s.
+Proof.
+  intros Hb Hp Hne Hf Hi Hn. cbn zeta. unfold ec_edit. rewrite Hb, Hp. destruct p as [|c0 p0]; [congruence|]. cbn [andb].
+  set (p := c0 :: p0) in *. rewrite Hf.
+  assert (G : forall s0 k, nth_error (bufs s0) k = Some (Some b) -> (1 <= k)%nat ->
+              slot0 (bufs_switch Lo s0 k) = Some b /\ xv (bufs_switch Lo s0 k) = b_view b /\ fs (bufs_switch Lo s0 k) = fs s0).
+  { intros s0 k H0 Hk. assert (S0 : slot0 (bufs_switch Lo s0 k) = Some b) by (apply switch_slot0; rewrite saved_tail by exact Hk; exact H0).
+    split; [exact S0|]. split; [rewrite switch_xv, S0; reflexivity|]. apply switch_fields. }
+  destruct (1 <? i)%nat eqn:Hlt.
+  - apply Nat.ltb_lt in Hlt. unfold bufs_find in Hf. destruct (first_idx_some _ _ _ Hf) as (x & Hx & Fx & Hmin).
+    destruct (nth_error (bufs s) 1) as [x1|] eqn:E1; [|apply nth_error_None in E1; assert (i < length (bufs s))%nat by (apply nth_error_Some; congruence); lia].
+    destruct (nth_error (bufs s) 0) as [x0|] eqn:E0; [|apply nth_error_None in E0; assert (i < length (bufs s))%nat by (apply nth_error_Some; congruence); lia].
+    assert (L1 : nth_error (saved Lo s) 1 = Some x1) by (rewrite saved_tail by lia; exact E1).
+    assert (Hn1 : nth_error (bufs (bufs_switch Lo s 1)) i = Some (Some b)).
+    { rewrite switch_bufs, (switch_nth_gt _ 1 x1 i L1 Hlt), saved_tail by lia. exact Hn. }
+    assert (Hf1 : bufs_find (bufs_switch Lo s 1) p = Some i).
+    { unfold bufs_find. apply (first_idx_first _ _ i (Some b) Hn1).
+      - rewrite Hx in Hn. inversion Hn; subst. exact Fx.
+      - intros j y Hj Hy. rewrite switch_bufs in Hy. destruct j as [|[|j]].
+        + pose proof (eq_trans (eq_sym (switch_nth0 _ 1 x1 L1)) Hy) as Q. apply some_inj in Q. subst y. apply (Hmin 1%nat); [lia|exact E1].
+        + pose proof (eq_trans (eq_sym (eq_trans (switch_nth_lt _ 1 x1 0 L1 ltac:(lia)) (saved_nth0 s x0 E0))) Hy) as Q. apply some_inj in Q. subst y.
+          rewrite has_path_bump, has_path_set_view. apply (Hmin 0%nat); [lia|exact E0].
+        + pose proof (eq_trans (eq_sym (eq_trans (switch_nth_gt _ 1 x1 (S (S j)) L1 ltac:(lia)) (saved_tail Lo s (S (S j)) ltac:(lia)))) Hy) as Q.
+          apply (Hmin (S (S j))); [lia|exact Q]. }
+    rewrite Hf1. cbn [fst snd]. destruct (G (bufs_switch Lo s 1) i Hn1 Hi) as (A & B & C). destruct (switch_fields Lo s 1) as (_ & _ & F & _).
+    rewrite C, F. auto.
+  - rewrite Hf. cbn [fst snd]. destruct (G s i Hn Hi) as (A & B & C). auto.
+Qed.
+
+Theorem reaches_ew s bang a p i b : (bang || xwa s = true \/ dirty_at Lo s 0 = false) ->
+  pathexpand s a = Some p -> p <> [] -> bufs_find s p = Some i -> (1 <= i)%nat -> nth_error (bufs s) i = Some (Some b) ->
+  let r := ec_edit Lo s bang true a in
+  snd r = true /\ snd (fst r) = [] /\ slot0 (fst (fst r)) = Some b /\ xv (fst (fst r)) = b_view b /\ fs (fst (fst r)) = fs s.
+Proof.
+  intros Hok Hp Hne Hf Hi Hn. cbn zeta. destruct (bang || xwa s) eqn:Hb.
+  - apply (reaches_ew_forced s bang a p i b Hb Hp Hne Hf Hi Hn).
+  - destruct Hok as [?|Hd]; [discriminate|]. rewrite (edit_clean s bang true a Hb Hd).
+    set (s0 := fst (bufs_modified Lo s 0)).
+    assert (Hn0 : nth_error (bufs s0) i = Some (Some b)) by (unfold s0; rewrite (modified_other Lo s 0 i) by lia; exact Hn).
+    assert (Hp0 : pathexpand s0 a = Some p) by (unfold s0; rewrite modified_pathexpand; exact Hp).
+    assert (Hf0 : bufs_find s0 p = Some i) by (unfold s0; rewrite modified_find; exact Hf).
+    pose proof (reaches_ew_forced s0 true a p i b eq_refl Hp0 Hne Hf0 Hi Hn0) as R. cbn zeta in R.
+    destruct (modified_fields Lo s 0) as (_ & _ & F & _). fold s0 in F. rewrite F in R. exact R.
+Qed.
+
 (* ---------- the summary: the buffer reached is THE one named ---------- *)
 (* slot i >= 1 holds the buffer b that command c names in state s *)
 Definition names s (c : cmd Op) (i : nat) (b : buf) : Prop :=
@@ -229,7 +291,7 @@ Definition names s (c : cmd Op) (i : nat) (b : buf) : Prop :=
   | CBufNext => (cur_id s < b_id b)%Z /\ forall j b', nth_error (bufs s) j = Some (Some b') -> (cur_id s < b_id b')%Z -> (b_id b <= b_id b')%Z
   | CBufPrev => (b_id b < cur_id s)%Z /\ forall j b', nth_error (bufs s) j = Some (Some b') -> (b_id b' < cur_id s)%Z -> (b_id b' <= b_id b)%Z
   | CBufAlias k => i = k /\ (k < 3)%nat
-  | CEdit _ false a => exists p, pathexpand s a = Some p /\ p <> [] /\ b_path b = canon p /\
+  | CEdit _ _ a => exists p, pathexpand s a = Some p /\ p <> [] /\ b_path b = canon p /\
                                   forall j b', (j < i)%nat -> nth_error (bufs s) j = Some (Some b') -> b_path b' <> canon p
   | _ => False
   end.
@@ -239,13 +301,6 @@ Definition not_refused s (c : cmd Op) : Prop :=
   | _ => xwa s = true \/ dirty_at Lo s 0 = false
   end.
 
-Lemma first_idx_first {A} (f : A -> bool) (l : list A) : forall i x, nth_error l i = Some x -> f x = true ->
-  (forall j y, (j < i)%nat -> nth_error l j = Some y -> f y = false) -> first_idx f l = Some i.
-Proof.
-  induction l as [|z l IH]; intros [|i] x H Fx Hlt; cbn in *; try discriminate.
-  - inversion H; subst. rewrite Fx. reflexivity.
-  - rewrite (Hlt 0%nat z ltac:(lia) eq_refl). rewrite (IH i x H Fx); [reflexivity|]. intros j y Hj Hy. apply (Hlt (S j) y); [lia|exact Hy].
-Qed.
 
 Lemma command_of_exec s c s1 evs : ex_exec Lo s c = (s1, evs) ->
   let s' := fst (ex_command Lo s c) in
@@ -263,15 +318,18 @@ Proof.
   { destruct (wf_prefix s i 0 b W Hn ltac:(lia)) as [b0 H0]. exists b0. rewrite slot0_nth, H0. reflexivity. }
   destruct S0 as [b0 S0]. pose proof (cur_id_slot0 s b0 S0) as Hcur.
   destruct c; try contradiction; cbn [ex_exec not_refused] in *.
-  - (* :e *) destruct ew; [contradiction|]. destruct Hc as (p & Hp & Hne & Hpath & Hfirst).
+  - (* :e, :ew *) destruct Hc as (p & Hp & Hne & Hpath & Hfirst).
     assert (Hf : bufs_find s p = Some i).
     { unfold bufs_find. apply (first_idx_first _ _ i (Some b) Hn).
       - cbn. apply path_eqb_eq. exact Hpath.
       - intros j [b'|] Hj Hy; [|reflexivity]. cbn. destruct (path_eqb (b_path b') (canon p)) eqn:Q; [|reflexivity].
         apply path_eqb_eq in Q. exfalso. exact (Hfirst j b' Hj Hy Q). }
-    pose proof (reaches_path_gen s bang a p i b Hok Hp Hne Hf Hi Hn) as R. cbn zeta in R.
-    destruct (ec_edit Lo s bang false a) as [[s1 evs] ok] eqn:E. cbn [fst snd] in R. destruct R as (_ & _ & A & B & C & _).
-    apply (G s1 evs eq_refl). auto.
+    assert (R : let r := ec_edit Lo s bang ew a in slot0 (fst (fst r)) = Some b /\ xv (fst (fst r)) = b_view b /\ fs (fst (fst r)) = fs s).
+    { destruct ew.
+      - pose proof (reaches_ew s bang a p i b Hok Hp Hne Hf Hi Hn) as R. cbn zeta in *. destruct R as (_ & _ & A & B & C). auto.
+      - pose proof (reaches_path_gen s bang a p i b Hok Hp Hne Hf Hi Hn) as R. cbn zeta in *. destruct R as (_ & _ & A & B & C & _). auto. }
+    cbn zeta in R. destruct (ec_edit Lo s bang ew a) as [[s1 evs] ok] eqn:E. cbn [fst snd] in R.
+    apply (G s1 evs eq_refl). exact R.
   - (* b n *) pose proof (reaches_id Lo s n) as R. unfold ec_buffer_id in *.
     assert (F : first_idx (has_id n) (bufs s) = Some i).
     { apply (first_idx_first _ _ i (Some b) Hn); [cbn; apply Z.eqb_eq; exact Hc|].
@@ -295,7 +353,7 @@ Proof.
   intros W (Hi & Hn & Hc) (Hi' & Hn' & Hc').
   assert (i = i'); [|subst i'; split; [reflexivity|congruence]].
   destruct c; try contradiction.
-  - destruct ew; [contradiction|]. destruct Hc as (p & Hp & _ & Hpath & Hfirst). destruct Hc' as (p' & Hp' & _ & Hpath' & Hfirst').
+  - destruct Hc as (p & Hp & _ & Hpath & Hfirst). destruct Hc' as (p' & Hp' & _ & Hpath' & Hfirst').
     assert (p' = p) by congruence. subst p'.
     destruct (lt_eq_lt_dec i i') as [[Hlt|Heq]|Hgt]; [|exact Heq|].
     + exfalso. exact (Hfirst' i b Hlt Hn Hpath).
